@@ -1065,6 +1065,7 @@ pub fn run(cfg: &Cfg, prop: &str) {
         (_, false) => 500,
     };
     let mut insp_counter = 0usize;
+    let mut alone: Vec<(Scenario, String, String)> = vec![];
     for i in 0..n {
         let depth = match prop {
             "C15" => 1 + r.below(2),
@@ -1211,6 +1212,27 @@ pub fn run(cfg: &Cfg, prop: &str) {
                 sink.oracle(a.answer == out.answer && b.answer == out.answer, "the outcome depends on the order in which the link directory lists its entries", &replay);
             }
             sink.stat(if a.answer == out.answer && b.answer == out.answer { "listing-order/same" } else { "listing-order/DIFFERENT" });
+        }
+        // ---- several verifications at once: what each answers is what it answers alone (scenarios without
+        //      inspections - those use the one working directory of the process)
+        if !crate::e2e::has_inspections(&s.block, &s.dir) && !crate::e2e::has_inspections(&base.block, &base.dir) && (prop == "C13" || i % 6 == 1) {
+            alone.push((s.clone(), out.answer.clone(), replay.clone()));
+            if alone.len() >= 3 {
+                let together: Vec<Scenario> = alone.iter().map(|a| a.0.clone()).collect();
+                // (each of them twice: the same directory contents verified by two threads at once)
+                let mut doubled = together.clone();
+                doubled.extend(together.iter().cloned());
+                let answers = crate::e2e::run_concurrently(&pool, &doubled);
+                for (n, a) in answers.iter().enumerate() {
+                    let (_, want, rp) = &alone[n % alone.len()];
+                    let same = a == want;
+                    sink.stat(if same { "concurrent/same" } else { "concurrent/DIFFERENT" });
+                    if prop == "C13" {
+                        sink.oracle(same, "verified at the same time as other inputs (on a thread of its own), the same input gets a different result", rp);
+                    }
+                }
+                alone.clear();
+            }
         }
         // ---- determinism: the same inputs again (fresh hash seeds) give the same answer
         if prop == "C13" || i % 4 == 0 {
